@@ -131,6 +131,13 @@ func InstallHooks() {
 		}
 		s.Yield(point)
 	}
+	simhook.SelectFn = func(point string, n int) int {
+		s := sim.Cur()
+		if s == nil {
+			return 0
+		}
+		return s.ChooseSelect(point, n)
+	}
 	simhook.HeldFn = func(d int) {
 		if s := sim.Cur(); s != nil {
 			s.HeldDelta(d)
